@@ -56,7 +56,7 @@ def run(tier):
                          sink=lambda b: cases.append(b[3:]) if b.startswith('C;;') else None, heap='16g')
     v.add_tlc(r)
     scripts = [cases[i:i + 500] for i in range(0, len(cases), 500)]
-    res = vf.run_scripts('slip', scripts, 'C12', name='slip', flavours=6)
+    res = vf.run_scripts('slip', scripts, 'C12', name='slip', flavours=12)
     v.exec_problems(res, 'slip')
     v.cov['traces_validated_against_impl'] += len(cases)
     v.cov['evaluations'] += res.checked
@@ -67,7 +67,7 @@ def run(tier):
                          encoder_cases=sum(1 for c in cases if c.startswith('enc')),
                          model_cases_checked=r.distinct, cfg='SlipMC.cfg' if quick else 'SlipMCt.cfg')
     rnd = random.Random(vf.seed())
-    vf.trace_flow(v, 'SlipTrace.tla', 'SlipTrace.cfg', 'slip', e2(rnd, 64 if quick else 640, 300 if quick else 1024), 'sliptrace', flavours=6)
+    vf.trace_flow(v, 'SlipTrace.tla', 'SlipTrace.cfg', 'slip', e2(rnd, 64 if quick else 640, 300 if quick else 1024), 'sliptrace', flavours=12)
     v.cov['rule'] = ('E0/E1: every raw input up to MaxRaw octets over the five octet classes, both modes, decoded by repeated calls; a single source '
                      'or sink fault at every position for inputs up to MaxRawErr; every payload up to MaxPayload through the encoder (with faults for the '
                      'short ones); prescribed results from TLC. distinct_nontrivial = distinct cases containing END or ESC. E2: random full-alphabet streams.')
